@@ -338,12 +338,23 @@ func tamperAll(c *hl.Ctx, cs caseT, kind string, keyOf func(field string) string
 	for _, f := range o.names {
 		v := o.val[f]
 		for bit := 0; bit < 8*len(v); bit++ {
-			if mode == 1 && bit%8 != 0 && bit%8 != 7 {
+			if mode == 1 && !sparseBit(bit, len(v)) {
 				continue
 			}
 			tamperOne(c, cs, kind, keyOf, ser, o, f, bit, try)
 		}
 	}
+}
+
+// sparseBit selects the quick tier's subset of a field's bits: the first and
+// the last bit of an octet, for every octet of a short field and, for fields
+// longer than 64 octets, for the first 32, the last 32 and every 8th octet.
+func sparseBit(bit, n int) bool {
+	if b := bit % 8; b != 0 && b != 7 {
+		return false
+	}
+	o := bit / 8
+	return n <= 64 || o < 32 || o >= n-32 || o%8 == 0
 }
 
 func tamperOne(c *hl.Ctx, cs caseT, kind string, keyOf func(field string) string, ser string, o *object, f string, bit int, try func(s string) (bool, bool, string)) {
@@ -1493,7 +1504,7 @@ var jweSers = []string{"compact", "json+aad", "json", "json+aad0"}
 
 func run(c *hl.Ctx) {
 	initKeys()
-	c.Rule("Matrix, exhaustive: every (signature alg x key variant x payload size x serialisation) and every (key-management alg [x curve x key variant] x content encryption x zip x plaintext size x serialisation) is signed/encrypted, serialised, parsed and verified/decrypted once, also with a different key of the same kind and a key of another kind, and re-checked by an independent RFC 7515/7516/7518 implementation; reference-built objects go the other way. Fault enumeration: for every object at the tamper sizes, each octet-string field (protected, payload/ciphertext, iv, tag, encrypted_key, signature, aad) is base64url-decoded, one bit is flipped, the field re-encoded and the object re-assembled, parsed and verified/decrypted with the right key (thorough: every bit of every field of every object; quick: every bit for one designated combination per (alg family x enc family), first and last bit of every octet for the rest). One evaluation = one matrix cell or one flipped object. Non-trivial = a matrix cell whose object round-tripped to exactly the payload and passed the reference, or a flipped object that the parser still accepted, so that rejection had to come from the cryptographic check (flips the parser rejects are counted separately as tamper_rejected_by_parser). Distinctness key = (part, alg, curve, key, enc, zip, size, serialisation[, field, bit]).")
+	c.Rule("Matrix, exhaustive: every (signature alg x key variant x payload size x serialisation) and every (key-management alg [x curve x key variant] x content encryption x zip x plaintext size x serialisation) is signed/encrypted, serialised, parsed and verified/decrypted once, also with a different key of the same kind and a key of another kind, and re-checked by an independent RFC 7515/7516/7518 implementation; reference-built objects go the other way. Fault enumeration: for every object at the tamper sizes, each octet-string field (protected, payload/ciphertext, iv, tag, encrypted_key, signature, aad) is base64url-decoded, one bit is flipped, the field re-encoded and the object re-assembled, parsed and verified/decrypted with the right key (thorough: every bit of every field of every object; quick: every bit for one designated combination per (alg family x enc family); for the rest the first and last bit of every octet of fields up to 64 octets and of the first 32, last 32 and every 8th octet of longer fields, key variant 0 only, DEF only with the compact serialisation, and for recipients that are not the first of their family only A192CBC-HS384 and A256GCM without compression). One evaluation = one matrix cell or one flipped object. Non-trivial = a matrix cell whose object round-tripped to exactly the payload and passed the reference, or a flipped object that the parser still accepted, so that rejection had to come from the cryptographic check (flips the parser rejects are counted separately as tamper_rejected_by_parser). Distinctness key = (part, alg, curve, key, enc, zip, size, serialisation[, field, bit]).")
 	c.Assume("Go standard library primitives (AES, SHA-2, HMAC, RSA, ECDSA, GCM, DEFLATE, math/big) are correct",
 		"ECDSA, PSS, OAEP, CEK, IV and ephemeral-key randomness comes from crypto/rand and is not pinned: oracles are round trip and rejection, never byte equality of randomised output; one object per matrix cell",
 		"the reference (verif/ref/joseref) passes the RFC 7518 B.1-B.3, RFC 3394 4.1/4.6 and RFC 7518 appendix C vectors (go test ./ref/joseref)",
@@ -1584,6 +1595,12 @@ func run(c *hl.Ctx) {
 						}
 						if c.Expired() {
 							return
+						}
+						if c.Quick() && zip != "" && ser != "compact" {
+							continue
+						}
+						if c.Quick() && !r.first && (zip != "" || (enc != jose.A192CBC_HS384 && enc != jose.A256GCM)) {
+							continue
 						}
 						cs := caseT{Part: "jwe", Alg: string(r.alg.name), Curve: r.curve, KeyVar: r.variant, Enc: string(enc), Zip: zip, Size: n, Ser: ser, Tamper: 2}
 						if c.Quick() && !(r.first && n == 17 && ser == "json+aad" && zip == "" && (enc == jose.A128CBC_HS256 || enc == jose.A128GCM)) {
